@@ -10,7 +10,10 @@ from ..srcmodel import AnalysisError, Model, norm, walk_no_nested
 
 SESSION_MOD = "sansldap._session"
 MUTATORS = {"append", "extend", "insert", "pop", "remove", "clear", "sort", "reverse", "add", "discard", "update", "setdefault", "popitem", "__setitem__", "__delitem__"}
-PURE_MODULE_CALLS = ("re.compile", "t.TypeVar", "typing.TypeVar", "TypeVar", "enum.auto", "dataclasses.field")
+# calls whose result is immutable (or not state at all): a module-level name bound to one of them is a constant
+PURE_MODULE_CALLS = ("re.compile", "t.TypeVar", "typing.TypeVar", "TypeVar", "enum.auto", "dataclasses.field",
+                     "ord", "chr", "len", "int", "str", "bytes", "float", "bool", "frozenset", "tuple", "range", "struct.Struct",
+                     "struct.calcsize", "bytes.fromhex", "str.maketrans", "bytes.maketrans", "min", "max", "abs", "hex", "repr", "format")
 # reviewed exception (I3): an idempotent memo in the enum's own value map; results are equal with or without the cache entry
 REVIEWED = {("sansldap._messages.LDAPResultCode._missing_", "cls._value2member_map_.setdefault"): "idempotent memo of unknown result codes inside the enum class itself"}
 
